@@ -49,7 +49,7 @@ CheckOK(tt, rows, k) ==
     [] k.op = "add" ->
          \A r \in rows : BSame(Bits(tt, k.out, r), BAdd(Bits(tt, k.a, r), BShift(Bits(tt, k.b, r), k.shift)))
     [] k.op = "mul" ->
-         /\ Len(k.out) = k.outlen
+         /\ (k.outlen < 0 \/ Len(k.out) = k.outlen)      \* -1: the statement fixes no width for this entry point
          /\ \A r \in rows : BSame(Bits(tt, k.out, r), BMul(Bits(tt, k.a, r), Bits(tt, k.b, r)))
     [] k.op = "sub" ->
          /\ Len(k.out) = Len(k.a)
